@@ -136,6 +136,9 @@ type Config struct {
 	AMEV       int64 // absolute enabling height, -1 = off
 	TPB        time.Duration
 	MaxTPB     time.Duration // 0 = dynamic block time off
+	// TimeSchedule (optional): block time and maximum block time as functions of the height (the
+	// callbacks are asked afresh at every Reset); MaxTPB > 0 must hold for the maximum to be used
+	TimeSchedule func(h uint32) (time.Duration, time.Duration)
 	TsInc      uint64
 	Epoch      int64 // unix nanoseconds of virtual clock 0
 	GenesisTs  uint64
@@ -495,6 +498,16 @@ func (n *Node) amevAt(idx uint32) bool {
 	return n.C.Cfg.AMEV >= 0 && uint32(n.C.Cfg.AMEV) <= idx
 }
 
+// BlockTimes returns what the TimePerBlock / MaxTimePerBlock callbacks answer right now: the
+// configured constants, or the run's schedule for the height that follows the node's ledger.
+func (n *Node) BlockTimes() (time.Duration, time.Duration) {
+	cfg := &n.C.Cfg
+	if cfg.TimeSchedule != nil {
+		return cfg.TimeSchedule(n.Height() + 1)
+	}
+	return cfg.TPB, cfg.MaxTPB
+}
+
 // NewInstance creates a fresh real library instance for the node.
 func (n *Node) NewInstance() error {
 	c := n.C
@@ -502,7 +515,7 @@ func (n *Node) NewInstance() error {
 	opts := []func(*dbft.Config[H]){
 		dbft.WithTimer[H](n.Timer),
 		dbft.WithLogger[H](zap.NewNop()),
-		dbft.WithTimePerBlock[H](func() time.Duration { return cfg.TPB }),
+		dbft.WithTimePerBlock[H](func() time.Duration { t, _ := n.BlockTimes(); return t }),
 		dbft.WithTimestampIncrement[H](cfg.TsInc),
 		dbft.WithAntiMEVExtensionEnablingHeight[H](cfg.AMEV),
 		dbft.WithGetKeyPair[H](func(pubs []dbft.PublicKey) (int, dbft.PrivateKey, dbft.PublicKey) {
@@ -645,7 +658,7 @@ func (n *Node) NewInstance() error {
 	}
 	if cfg.MaxTPB > 0 {
 		opts = append(opts,
-			dbft.WithMaxTimePerBlock[H](func() time.Duration { return cfg.MaxTPB }),
+			dbft.WithMaxTimePerBlock[H](func() time.Duration { _, t := n.BlockTimes(); return t }),
 			dbft.WithSubscribeForTxs[H](func() {
 				n.Subscribed = true
 				c.emit(&Event{Node: n.ID, Kind: KSubscribe})
